@@ -79,11 +79,15 @@ Fixpoint count_active (s : estate) (n : nat) (i : N) : N :=      (* Stats: idx =
   | S k => (if slot_free s i then 0 else 1) + count_active s k (i + 1)
   end.
 
-(* AdvanceEpoch's lazy clean-up over the subscribers map (entries are independent: order irrelevant) *)
+(* AdvanceEpoch's clean-up loop over the subscribers map: every mapping whose slot is free at the new
+   epoch is deleted from both maps (the deletions are independent, so the Go map order is irrelevant) *)
 Definition cleanup (s : estate) : estate :=
-  fold_left (fun st p => if slot_free s (snd p)
-                         then set_maps st (adel (fst p) (e_subs st)) (adel (snd p) (e_rev st)) (e_hint st)
-                         else st) (e_subs s) s.
+  set_maps s (filter (fun p => negb (slot_free s (snd p))) (e_subs s))
+             (filter (fun p => negb (slot_free s (fst p))) (e_rev s)) (e_hint s).
+Definition bump (s : estate) : estate :=
+  {| e_base := e_base s; e_total := e_total s; e_grace := e_grace s;
+     e_gens := e_gens s; e_tgen := e_tgen s; e_subs := e_subs s; e_rev := e_rev s;
+     e_epoch := e_epoch s + 1; e_hint := e_hint s |}.
 Definition overdue (s : estate) : bool :=      (* ghost: a kept lease whose true age exceeds grace *)
   existsb (fun p => e_grace s <? e_epoch s - etg s (snd p)) (e_subs s).
 
@@ -128,10 +132,7 @@ Definition step (s : estate) (o : op) : estate * out * list N :=
           end
       end
   | Advance =>
-      let s1 := {| e_base := e_base s; e_total := e_total s; e_grace := e_grace s;
-                   e_gens := e_gens s; e_tgen := e_tgen s; e_subs := e_subs s; e_rev := e_rev s;
-                   e_epoch := e_epoch s + 1; e_hint := e_hint s |} in
-      let s2 := cleanup s1 in
+      let s2 := cleanup (bump s) in
       (s2, OOk, if overdue s2 then [503] else [])
   | Stats =>
       let usable := sub64 (e_total s) 2 in
